@@ -11,6 +11,7 @@ from __future__ import annotations
 import random
 
 import numpy as np
+from affine import Affine
 
 from .. import gen, pairs
 from ..kernel import Monitor, call, hsig
@@ -33,7 +34,18 @@ def one(mon: Monitor, rng: random.Random) -> None:
     from ..daskorder import random_order
 
     cross = rng.random() < 0.3
-    if cross:
+    glob = rng.random() < 0.07
+    if glob:
+        # regional destination cut out of a global mosaic (the source is far larger than the destination's projection can represent)
+        from odc.geo.geobox import GeoBox
+        from .c12 import GLOBAL_SOURCES
+
+        scrs, aff, sshape = rng.choice(GLOBAL_SOURCES)
+        src = GeoBox(sshape, Affine(*aff), scrs)
+        entry = rng.choice([e for e in gen.CRS_WINDOWS if e[0] not in gen.GLOBAL_CRS])
+        dst, _w = gen.window_geobox(rng, entry, npix=(rng.randint(8, 36), rng.randint(8, 36)), extent_deg=rng.choice([1.0, 2.0, 4.0]), fam=rng.choice(["north-up", "north-up", "rotated"]))
+        cross, kind, exact_grid = True, "cross|global-source", False
+    elif cross:
         pr = pairs.cross_crs_pair(rng, max_n=36)
         if pr is None:
             return mon.skip("generator", "no common window")
@@ -61,6 +73,8 @@ def one(mon: Monitor, rng: random.Random) -> None:
     dch = (rng.choice([1, 5, 8, 64]), rng.choice([2, 6, 64]))
     if H * W > 600:
         sch = (max(sch[0], 3), max(sch[1], 4))
+    if glob:
+        sch = (rng.choice([60, 90, 128]), rng.choice([90, 120, 256]))
     if ny * nx > 600:
         dch = (max(dch[0], 5), max(dch[1], 6))
     resampling = rng.choice(["nearest", "nearest", "bilinear"])
@@ -93,6 +107,11 @@ def one(mon: Monitor, rng: random.Random) -> None:
 
         tb = traceback.extract_tb(e.__traceback__)
         where = next((f"{f.name}:{f.lineno}" for f in reversed(tb) if "odc/geo" in f.filename), "?")
+        if glob and type(e).__name__ == "GEOSException" and "closed linestring" in str(e):
+            from .c12 import _buffer_leaves_projection
+
+            if _buffer_leaves_projection(src):  # K5: planning grows the source outline by 2 px, out of the valid range of the source's own projection
+                return mon.fail("chunked", {**cfg, "exc": e, "at": where, "whole_array_path": "succeeded"}, key="footprint-buffer-leaves-projection", cls=cls)
         return mon.fail("chunked", {**cfg, "exc": e, "at": where}, key="chunked-disjoint-raises" if ("far" in kind or "near" in kind) else "chunked-raises", cls=cls)
     if osig:
         _orders.add((sched_, osig))
@@ -127,6 +146,23 @@ def one(mon: Monitor, rng: random.Random) -> None:
                   "first_diff": [int(v) for v in np.argwhere((a != b) & mm)[0]] if ((a != b) & mm).any() else None}, key="values-differ", cls=cls, sig=sig)
         mon.obs["pixels_compared_identical_rule"] += int(cmp_mask.sum())
     mon.obs["pixels_checked_fill_rule"] += int(far_out.sum())
+    # pixels whose source location is well inside the source image: a chunk that lost a source block shows up as fill where the whole-array result has data
+    deep = fin & (px > 2) & (px < W - 2) & (py > 2) & (py < H - 2)
+    if deep.any():
+        md = np.broadcast_to(deep, a.shape)
+        fa, fb = isfill(a[md]), isfill(b[md])
+        mon.check(bool(np.array_equal(fa, fb)), "inside-rule", lambda: {**cfg, "pixels_well_inside": int(deep.sum()), "fill_in_chunked_only": int((fb & ~fa).sum()), "fill_in_whole_only": int((fa & ~fb).sum())},
+                  key="inside-fill-differs", cls=cls, sig=sig)
+        if cross and resampling == "nearest":
+            # GDAL approximates the coordinate transform piecewise (error threshold 0.125 px) and may do so differently per chunk: compare only where
+            # the source location is at least a quarter pixel away from any pixel boundary
+            fx, fy = px - np.floor(px), py - np.floor(py)
+            safe = deep & (fx > 0.25) & (fx < 0.75) & (fy > 0.25) & (fy < 0.75)
+            ms = np.broadcast_to(safe, a.shape)
+            same = np.array_equal(a[ms], b[ms], equal_nan=True)
+            mon.check(bool(same), "chunked==whole.cross", lambda: {**cfg, "pixels_compared": int(safe.sum()), "pixels_differ": int(((a != b) & ms & ~(np.isnan(a.astype("float64")) & np.isnan(b.astype("float64")))).sum())},
+                      key="values-differ-cross", cls=cls, sig=sig)
+            mon.obs["pixels_compared_cross_nearest"] += int(safe.sum())
 
 
 PINNED_SEEDS = [11, 22, 33]
@@ -146,7 +182,7 @@ def run(mon: Monitor, tier: str, seed: int, shard: int, nshards: int) -> None:
     mon.obs["distinct_orders_sync"] = len({o for s, o in _orders if s == "sync"})
     mon.obs["distinct_orders_threads"] = len({o for s, o in _orders if s == "threads"})
     for pt, n in [("fill-rule", 150), ("chunked==whole", 60), ("fill-rule|same|far|all-outside", 5), ("fill-rule|cross|far|all-outside", 2), ("fill-rule|same|partial", 10), ("chunked==whole|same|subpix", 3),
-                  ("chunked==whole|same|mirror", 3), ("chunked==whole|same|scale", 3), ("fill-rule|cross|shift", 5)]:
+                  ("chunked==whole|same|mirror", 3), ("chunked==whole|same|scale", 3), ("fill-rule|cross|shift", 5), ("inside-rule", 40), ("inside-rule|cross|global-source", 3)]:
         mon.floor(pt, n)
 
 
